@@ -2,7 +2,7 @@
 From Coq Require Import List Arith Bool Lia.
 Import ListNotations.
 From IT Require Import Sdpl.IR Sdpl.Elab Sdpl.Wf Runtime.Actor Runtime.ActorInv Runtime.InvDefs Runtime.InvDefs2 Runtime.InvSeq
-  Runtime.Combined Runtime.InvStop.
+  Runtime.Combined Runtime.InvStop Runtime.InvSole.
 
 Section C09.
 Context {A V : Type} (sem : nat -> A -> list V -> option (A * V)) (sem_slf : nat -> A -> list V -> V) (dv : V).
@@ -59,8 +59,28 @@ Theorem C09_sole_owner_stops : forall (m : model) s t cl k vs rest, nth_error (c
   c_prog cl = Consume k vs :: rest -> 0 < c_nh cl -> senders s <= 1 ->
   exists s', step (elab m) s (Cl t) = Some s' /\ exists cl', nth_error (clients s') t = Some cl' /\ c_pc cl' = StopSend (t, c_seq cl) k vs.
 Proof. intros m s t cl k vs rest H1 H2 H3 H4 H5. eapply sole_owner_sends_stop; eauto. Qed.
+(* only to a sole owner: with the guard on every self-consuming method, while a client is inside such a call its handle is the
+   only handle in existence, and the step that hands the actor over finds exactly that one handle *)
+Theorem C09_consuming_client_is_sole_owner : forall (m : model), wf_C09 m = true -> r_guard (elab m) = true ->
+  forall a0 progs sched, let s := run (elab m) a0 progs sched in
+  forall t cl, nth_error (clients s) t = Some cl -> stopping cl = true -> senders s = 1 /\ c_nh cl = 1.
+Proof. intros m _ G a0 progs sched. exact (stop_sole_reachable sem sem_slf dv (elab m) G a0 progs sched). Qed.
+
+Theorem C09_stopped_only_by_sole_owner : forall (m : model), wf_C09 m = true -> r_guard (elab m) = true ->
+  forall a0 progs sched, let s := run (elab m) a0 progs sched in
+  forall s', step (elab m) s Ac = Some s' -> exited s = None -> exited s' = Some Stopped ->
+  senders s = 1 /\ exists t cl, nth_error (clients s) t = Some cl /\ stopping cl = true /\ c_nh cl = 1.
+Proof. intros m _ G. exact (stopped_by_sole_owner sem sem_slf dv (elab m) G). Qed.
+
+(* a queued stop message belongs to a client that is waiting for it (no premise on the model) *)
+Theorem C09_stop_message_has_waiting_owner : forall (m : model) a0 progs sched, let s := run (elab m) a0 progs sched in
+  forall c, In (MStop c) (queue s) -> exists cl k vs, nth_error (clients s) (fst c) = Some cl /\ c_pc cl = StopWait c k vs.
+Proof. intros m a0 progs sched. exact (stop_queued_reachable sem sem_slf dv (elab m) a0 progs sched). Qed.
 End C09.
 
+Print Assumptions C09_consuming_client_is_sole_owner.
+Print Assumptions C09_stopped_only_by_sole_owner.
+Print Assumptions C09_stop_message_has_waiting_owner.
 Print Assumptions C09_moved_at_most_once.
 Print Assumptions C09_handover_value.
 Print Assumptions C09_after_all_earlier.
